@@ -193,7 +193,7 @@ public:
     {
         finish();
         received.clear(); sent = 0; saw_eof = false; connected = false; err.clear(); done = false; reused = false; tls_ok = false;
-        bool passive = lfd >= 0;
+        bool passive = lfd >= 0 && !this->target;     // the client's last word decides: after PORT / EPRT the peer connects, whatever the script opened
         std::optional<sockaddr_storage> target = this->target; socklen_t target_len = this->target_len;
         worker = std::thread([this, act, passive, target, target_len] {
             peer_scope ps;
